@@ -3,8 +3,9 @@
 
    All theorems quantify over every option list: any option types, any data lengths (bytes are N, so
    0..253 is included), duplicates, any order; and over every configuration and previous peer state.
-   Variant [repaired] is what /repo HEAD implements for pkg/ppp and internal/pppoe (all recorded findings are
-   fixed there); [lns_found] is what internal/l2tp (LNS owner of the same IPCP object) still does.  The IPCP,
+   Variant [repaired] is what /repo HEAD (ce9ad2f) implements for pkg/ppp, internal/pppoe and internal/l2tp,
+   except the one finding still open (installInMemoryState, flag f_restore / [def_restore]).  [defective] and
+   [lns_found] are the behaviours before the fixes and only occur in historical _refuted witnesses.  The IPCP,
    IPv6CP, magic-number, wire-format and reply theorems do not depend on the variant at all. *)
 From OV Require Import Common.Base C06.Model C06.Proofs.
 
@@ -327,11 +328,11 @@ Theorem C06_startncp_assigned :
 Proof. exact startncp_assigned. Qed.
 Print Assumptions C06_startncp_assigned.
 
-(* Before 95b0af2 (PPPoE) / still today in the LNS owner (1): a Configure-Request without an IP-Address
+(* Historical, fixed in 95b0af2 (PPPoE) and ce9ad2f (LNS) (1): a Configure-Request without an IP-Address
    option is acknowledged, IPCP comes up and onIPCPUp overwrites the session address with the nil peer address. *)
 Theorem C06_adopted_is_assigned_refuted :
   exists ow aaa orc es,
-  let fl := mkflags false true false false false in
+  let fl := mkflags false true false false false false in
   let s := sess_run fl (sess_start fl ow aaa orc) es in
   s_open s = true /\ s_addr s = None /\ usable (ic_assigned (s_cfg s)) = true.
 Proof.
@@ -340,12 +341,12 @@ Proof.
 Qed.
 Print Assumptions C06_adopted_is_assigned_refuted.
 
-(* Before 95b0af2 (1b): after a re-authentication that changes the assignment from A to B the remembered
+(* Historical, fixed in 95b0af2 (1b): after a re-authentication that changes the assignment from A to B the remembered
    peer address A survives in the IPCP object; a request without an address option then brings IPCP up and
    the session adopts the stale A. *)
 Theorem C06_adopted_stale_refuted :
   exists aaa es,
-  let fl := mkflags false true false true false in
+  let fl := mkflags false true false true false false in
   let s := sess_run fl (sess_start fl PPPoE aaa (mkorc None true)) es in
   s_open s = true /\ s_addr s = Some [10;0;0;5]%N /\ ic_assigned (s_cfg s) = Some [10;0;0;9]%N.
 Proof.
@@ -356,11 +357,11 @@ Proof.
 Qed.
 Print Assumptions C06_adopted_stale_refuted.
 
-(* Before bc32486 (2): an unusable AAA address (0.0.0.0, IPv6 literal) was kept by extractIPFromAttributes;
+(* Historical, fixed in bc32486 (2): an unusable AAA address (0.0.0.0, IPv6 literal) was kept by extractIPFromAttributes;
    on a re-authentication it wipes the address of a session whose IPCP is open with A assigned. *)
 Theorem C06_aaa_unusable_refuted :
   exists aaa es,
-  let fl := mkflags false false true false false in
+  let fl := mkflags false false true false false false in
   let s := sess_run fl (sess_start fl PPPoE aaa (mkorc None true)) es in
   s_open s = true /\ s_addr s = None /\ ic_assigned (s_cfg s) = Some [10;0;0;5]%N.
 Proof.
@@ -370,7 +371,7 @@ Proof.
 Qed.
 Print Assumptions C06_aaa_unusable_refuted.
 
-(* The LNS owner as found at HEAD (internal/l2tp/lns_lifecycle.go): with no address to assign (no pool, no
+(* Historical, the LNS owner before ce9ad2f (internal/l2tp/lns_lifecycle.go): with no address to assign (no pool, no
    AAA address) IPCP is started anyway and runs "unassigned": the subscriber's proposal 6.6.6.6 is
    acknowledged and adopted; and with AAA 0.0.0.0 likewise. *)
 Theorem C06_lns_unassigned_refuted :
@@ -381,6 +382,34 @@ Proof.
   exists None, (mkorc None true), [EvReq 1 [3;6;6;6;6;6]%N; EvAck]. vm_compute. repeat split.
 Qed.
 Print Assumptions C06_lns_unassigned_refuted.
+
+(* A session restored from a checkpoint (installInMemoryState, repaired): the checkpointed address is the
+   assignment, and for every history after the restore (renegotiation by the subscriber, re-authentication,
+   ...) the conclusion of C06_adopted_is_assigned holds. *)
+Theorem C06_restored_adopts_only_assigned :
+  forall addr d1 d2 es,
+  usable (Some addr) = true ->
+  let s := sess_run repaired (sess_restore repaired addr d1 d2) es in
+  (s_fsm s = 0%N /\ s_addr s = None /\ s_open s = false) \/
+  (usable (ic_assigned (s_cfg s)) = true /\
+   (s_addr s = None \/ to4o (s_addr s) = ic_assigned (s_cfg s)) /\
+   (pp_addr (s_peer s) = None \/ pp_addr (s_peer s) = ic_assigned (s_cfg s))).
+Proof. exact restored_adopts_only_assigned. Qed.
+Print Assumptions C06_restored_adopts_only_assigned.
+
+Theorem C06_restored_assigned :
+  forall addr d1 d2, ic_assigned (s_cfg (sess_restore repaired addr d1 d2)) = to4 addr.
+Proof. exact restored_assigned. Qed.
+Print Assumptions C06_restored_assigned.
+
+(* OPEN finding (known: restored-session-ipcp-has-nothing-assigned) at /repo ce9ad2f: the restored IPCP object has nothing assigned; the subscriber
+   renegotiates IPCP proposing 6.6.6.6, gets a Configure-Ack, and the session adopts 6.6.6.6. *)
+Theorem C06_restored_adopts_only_assigned_refuted :
+  exists addr es,
+  let s := sess_run def_restore (sess_restore def_restore addr None None) es in
+  usable (Some addr) = true /\ s_open s = true /\ s_addr s = Some [6;6;6;6]%N.
+Proof. exists [10;0;0;5]%N, [EvReq 1 [3;6;6;6;6;6]%N; EvAck]. vm_compute. repeat split. Qed.
+Print Assumptions C06_restored_adopts_only_assigned_refuted.
 
 (* ---- LCP ------------------------------------------------------------------------------------ *)
 
@@ -419,7 +448,7 @@ Theorem C06_lcp_auth_supported_only :
 Proof. exact lcp_auth_supported_only. Qed.
 Print Assumptions C06_lcp_auth_supported_only.
 
-(* the part of it that already holds today: nothing but PAP (0xc023) or CHAP (0xc223) is acknowledged *)
+(* the part of it that holds in every variant: nothing but PAP (0xc023) or CHAP (0xc223) is acknowledged *)
 Theorem C06_lcp_auth_pap_or_chap_partial :
   forall fl magic p opts r p',
   lcp_req fl magic p opts = (r, p') ->
@@ -428,7 +457,7 @@ Theorem C06_lcp_auth_pap_or_chap_partial :
 Proof. exact lcp_auth_pap_or_chap. Qed.
 Print Assumptions C06_lcp_auth_pap_or_chap_partial.
 
-(* What the code does today (3): CHAP with algorithm 0x81 (MS-CHAPv2, not implemented) is acknowledged
+(* Historical, fixed in 54fb851 (3): CHAP with algorithm 0x81 (MS-CHAPv2, not implemented) is acknowledged
    and the reply is a Configure-Ack. *)
 Theorem C06_lcp_auth_supported_only_refuted :
   exists magic opts,
@@ -551,6 +580,34 @@ Example C06_history_nonvacuous :
   = [mkres [] [mkopt 5 [0;0;0;7]%N] []].
 Proof. vm_compute. split; reflexivity. Qed.
 Print Assumptions C06_history_nonvacuous.
+
+(* ---- IPv6CP in a session: "its own identifier" is the one it has put on the wire ------------- *)
+
+(* startNCP installs the MAC-derived identifier and only then opens IPv6CP.  For every random default
+   identifier r, every installed identifier m and every history of subscriber Configure-Requests (arbitrary
+   bytes, or echoing exactly what our last Configure-Request carried), verbatim Acks, Naks and Rejects with
+   arbitrary contents: the identifier announced in our outstanding Configure-Request is the one
+   ProcessConfReq compares with, and no Configure-Ack ever carries an identifier that our last
+   Configure-Request announced.  (A second startNCP on the same session re-installs m without re-announcing;
+   histories containing it are compared with the real code but are outside this statement.) *)
+Theorem C06_ipv6cp_wire_identity :
+  forall r m es s,
+  forallb (fun e => negb (is_v6start e)) es = true ->
+  s = v6sess_run (fst (v6sess_step (v6sess0 r) (V6Start m))) es ->
+  vs_last s = v6_build (vs_obj s) /\
+  forall e acts id' os, is_v6start e = false -> snd (v6sess_step s e) = acts -> In (Sca id' os) acts ->
+    forall o x, In o os -> In x (vs_last s) -> o_data o <> o_data x.
+Proof. exact v6_wire_identity. Qed.
+Print Assumptions C06_ipv6cp_wire_identity.
+
+Example C06_ipv6cp_session_nonvacuous :
+  let m := iid_from_mac [82;84;0;17;34;51]%N in
+  let s1 := fst (v6sess_step (v6sess0 [9;9;9;9;9;9;9;9]%N) (V6Start m)) in
+  vs_last s1 = [mkopt 1 [80;84;0;255;254;17;34;51]%N] /\
+  snd (v6sess_step s1 (V6Echo 5 [[2;0;0;0;0;0;0;7]%N])) = [Scn 5 [mkopt 1 [2;0;0;0;0;0;0;7]%N]] /\
+  snd (v6sess_step s1 (V6Req 6 [1;10;2;0;0;0;0;0;0;1]%N [])) = [Sca 6 [mkopt 1 [2;0;0;0;0;0;0;1]%N]].
+Proof. vm_compute. repeat split. Qed.
+Print Assumptions C06_ipv6cp_session_nonvacuous.
 
 (* ---- wire format ---------------------------------------------------------------------------- *)
 
